@@ -354,6 +354,7 @@ fn c07_schemas(ctx: &Ctx) -> Vec<Value> {
             v.push(s);
         }
     }
+    v.extend(jsongen::ref_chain_schemas());
     v.push(json!({"const": 5.0}));
     v.push(json!({"enum": [1.5, 2.0, "x"]}));
     v.push(json!({"type": "object", "properties": {"a": {"type": "integer"}, "b": {"type": "string", "maxLength": 2}, "c": {"type": "array", "items": {"type": "boolean"}, "maxItems": 2}}, "required": ["b"]}));
